@@ -540,7 +540,8 @@ def oracle_sequences(ck, tier):
                         [R(weights=ringw, direction="forward"), R(direction="forward"), R()],
                         [R(weights=ringw, reg=("L2", 5.0)), R(reg=("L2", 5.0)), R(), R(direction="forward")],
                         [R(weights=ringw, reg="pos", order=2), R(reg="pos", order=2), R(order=2)],
-                        [R(weights=ringw, reg=("SVD", 0.2)), R(weights=ringw), R(reg=("diff", 1.0)), R()]],
+                        [R(weights=ringw, reg=("SVD", 0.2)), R(weights=ringw), R(reg=("diff", 1.0)), R()],
+                        [R(reg=("SVD", 0.3)), R(), R(reg=("L2", 0)), R(direction="forward"), R(reg=("SVD", 0.3), order=4), R(order=4)]],
     }
     scratch = os.environ.get("VERIF_SCRATCH")
     refs = {}
@@ -629,6 +630,67 @@ def oracle_failed_saves(ck, tier):
         cleanup()
 
 
+def oracle_refused_calls(ck, tier):
+    """a request the library refuses (unknown origin / rmax / regularisation / output name, impossible degree or shape) is part of the
+    history like any other: the valid calls after it return what they return in a fresh process — they neither fail nor change
+    (repair F66: an rbasex call refused while analysing its first image left a half-built object in the cache and every later
+    call raised AttributeError until cache_cleanup())"""
+    from abel import basex, dasch, daun, linbasex, rbasex
+    rng = np.random.default_rng(seed() + 766)
+    half = rng.random((4, 15))
+    full = rng.random((21, 21))
+    families = {
+        "rbasex": (rbasex.cache_cleanup,
+                   [lambda: rbasex.rbasex_transform(full)[0], lambda: rbasex.rbasex_transform(full, order=4, direction="forward")[0],
+                    lambda: rbasex.rbasex_transform(full, origin=(9, 11), rmax=8, reg=("L2", 2.0))[0]],
+                   [lambda: rbasex.rbasex_transform(full, origin="xx"), lambda: rbasex.rbasex_transform(full, rmax="foo"),
+                    lambda: rbasex.rbasex_transform(full, reg=("bogus", 1.0)), lambda: rbasex.rbasex_transform(full, out="bogus"),
+                    lambda: rbasex.rbasex_transform(full, origin=(50, 50)), lambda: rbasex.rbasex_transform(full, direction="sideways"),
+                    lambda: rbasex.rbasex_transform(full, order=1, reg="pos", odd=True, weights=np.zeros((3, 3)))]),
+        "daun": (daun.cache_cleanup,
+                 [lambda: daun.daun_transform(half, degree=1, verbose=False), lambda: daun.daun_transform(half, degree=3, reg=("L2", 1.0), verbose=False),
+                  lambda: daun.daun_transform(half, direction="forward", degree=2, verbose=False)],
+                 [lambda: daun.daun_transform(half, degree=5, verbose=False), lambda: daun.daun_transform(half, reg="bogus", verbose=False),
+                  lambda: daun.daun_transform(half, reg=("bogus", 2.0), degree=2, verbose=False), lambda: daun.daun_transform(half, direction="sideways", verbose=False)]),
+        "basex": (basex.cache_cleanup,
+                  [lambda: basex.basex_transform(half, basis_dir=None, verbose=False), lambda: basex.basex_transform(half, sigma=2.0, reg=3.0, basis_dir=None, verbose=False)],
+                  [lambda: basex.basex_transform(half, direction="sideways", basis_dir=None, verbose=False),
+                   lambda: basex.basex_transform(half, sigma=-1.0, basis_dir=None, verbose=False)]),
+        "dasch": (dasch.cache_cleanup,
+                  [lambda: dasch.two_point_transform(half, basis_dir=None), lambda: dasch.three_point_transform(half, basis_dir=None, dr=0.5)],
+                  [lambda: dasch.three_point_transform(half[:, :2], basis_dir=None), lambda: dasch.two_point_transform(half, direction="forward", basis_dir=None)]),
+        "linbasex": (linbasex.cache_cleanup,
+                     [lambda: linbasex.linbasex_transform_full(full, basis_dir=None)[1]],
+                     [lambda: linbasex.linbasex_transform_full(full[:, :20], basis_dir=None), lambda: linbasex.linbasex_transform_full(full, proj_angles=[0], basis_dir=None)]),
+    }
+    for name, (cleanup, good, bad) in families.items():
+        refs = []
+        for g in good:
+            cleanup()
+            refs.append(np.array(quiet(g), float))
+        for ib, b in enumerate(bad):
+            for ig, g in enumerate(good):
+                ck.count(("S.refused-call", name, ib, ig), suite="S.refused-calls")
+                cleanup()
+                try:
+                    quiet(good[(ig + 1) % len(good)])
+                    try:
+                        quiet(b)
+                        refused = False
+                    except Exception:
+                        refused = True
+                    got = np.array(quiet(g), float)
+                except Exception as e:
+                    ck.violation(dict(site=name, clause="call-after-refused-call-fails"), dict(module=name, refused=ib, then=ig),
+                                 f"{name}: valid call #{ig} right after the refused request #{ib} raises {type(e).__name__}: {e}")
+                    continue
+                if got.shape != refs[ig].shape or not np.allclose(got, refs[ig], rtol=0, atol=1e-9 * max(1.0, float(np.nanmax(np.abs(refs[ig])))), equal_nan=True):
+                    ck.violation(dict(site=name, clause="call-after-refused-call-differs"), dict(module=name, refused=ib, then=ig, was_refused=refused),
+                                 f"{name}: valid call #{ig} right after request #{ib} ({'refused' if refused else 'accepted'}) differs from its fresh-process value by "
+                                 f"{np.nanmax(np.abs(got - refs[ig])) if got.shape == refs[ig].shape else 'shape'}")
+        cleanup()
+
+
 def oracle_cleanup_exact(ck):
     """basis_dir_cleanup(method) removes exactly that method's basis files"""
     import abel
@@ -712,6 +774,7 @@ def run(tier):
     oracle_transform(ck, tier, deep or bool(ck.broken))
     oracle_cleanup_exact(ck)
     oracle_failed_saves(ck, tier)
+    oracle_refused_calls(ck, tier)
     from harness import rbxmachine
     rbxmachine.run_sessions(ck, tier)              # rbasex's in-memory transform caches vs the Lean machine of C07Rbasex
     from harness import bxmachine
